@@ -55,6 +55,17 @@ func TestReplayStopOvertakesQueuedStart(t *testing.T) {
 	replayCase(t, h, nil, "C08/stop-before-start/start-failed-earlier")
 }
 
+// The same overtaking, cut short by a crash: the Stop is accepted while the failed Start waits for its retry,
+// then the process dies and the queued Start with it, so no Start is ever accepted.  Same root cause, same
+// signature — and not KF-C08-5: no crash lies between the failed Start and the Stop, and the Stop was not
+// sent by a restarted instance.
+func TestReplayStopOvertakesQueuedStartThenCrash(t *testing.T) {
+	h := baseHistory(1)
+	h.Plan[planKey("replay-0", tStart)] = []bool{true, true}
+	h.Ops = []op{{K: "start", S: 0}, {K: "stop", S: 0, Cause: 1}, {K: "crash", D: 1}}
+	replayCase(t, h, nil, "C08/stop-before-start/start-failed-earlier")
+}
+
 // Sus 1: StopSession during an outage queues the Stop in memory only and removes the session file; a crash loses it.
 func TestReplayFailedStopLostByCrash(t *testing.T) {
 	h := baseHistory(1)
